@@ -11,3 +11,6 @@ import AstGrepVerif.Spec.Align
 import AstGrepVerif.Model.Rule
 import AstGrepVerif.Generated.Tables
 import AstGrepVerif.Props.C20
+import AstGrepVerif.Props.C02
+import AstGrepVerif.Props.C03
+import AstGrepVerif.Spec.RuleRef
